@@ -138,7 +138,7 @@ def _bfs_edges_rust(
             return Result(list(result["path"]), len(result["path"]) - 1, result["iterations"], 0)
         return Result(None, float("inf"), result["iterations"], 0, Status.INFEASIBLE)
 
-    return Result(list(result["visited_order"]), 0, result["iterations"], 0)
+    return Result(sorted(result["visited_order"]), 0, result["iterations"], 0)
 
 
 @rust_adapter("dfs_edges")
@@ -156,10 +156,10 @@ def _dfs_edges_rust(
 
     if target is not None:
         if result["target_reached"]:
-            return Result(list(result["path"]), len(result["path"]) - 1, result["iterations"], 0)
+            return Result(list(result["path"]), len(result["path"]) - 1, result["iterations"], 0, Status.FEASIBLE)
         return Result(None, float("inf"), result["iterations"], 0, Status.INFEASIBLE)
 
-    return Result(list(result["visited_order"]), 0, result["iterations"], 0)
+    return Result(sorted(result["visited_order"]), 0, result["iterations"], 0)
 
 
 @rust_adapter("pagerank_edges")
@@ -207,5 +207,6 @@ def _topo_edges_rust(
     result = rust.topological_sort(n_nodes, edges)
 
     if result["is_acyclic"]:
-        return Result(list(result["order"]), 0, result["iterations"], 0)
+        order = list(result["order"])
+        return Result(order, len(order), result["iterations"], 0)
     return Result(None, 0, result["iterations"], 0, Status.INFEASIBLE)
